@@ -1126,7 +1126,10 @@ class Verifier:
                         continue
                     for st2, b in ip.branch(st1, ip.truth(st1, c)):
                         if not b:
-                            outs.append((st2, ("normal",)))
+                            if node.orelse:
+                                outs.extend(ip.exec_block(node.orelse, st2))       # while ... else: runs when the test fails
+                            else:
+                                outs.append((st2, ("normal",)))
                             continue
                         if k == bound:
                             self.emit(st2, "unwind", "loop%d.at-most-%d-iterations" % (ordinal, bound), tm.FALSE)
